@@ -440,6 +440,7 @@ pub fn expand(case: &DirCase, si: usize) -> Vec<EntryModel> {
                 }
                 (PKind::Array { .. }, _) => Val::A(gen_array(&mut rng, 24, 0, &[])),
                 (PKind::Content, Col::Const) => Val::C(1, 3),
+                (PKind::Content, Col::Content { packs: 0, maxid }) => Val::C(*maxid as u16, rng.below(50_000) as u32),
                 (PKind::Content, Col::Content { packs, maxid }) => {
                     let pk = 1 + rng.below(*packs as u64) as u16 * if *packs > 200 { 3 } else { 1 };
                     let cid = match rng.below(3) {
